@@ -81,6 +81,10 @@ def reduce (s : Spec α) (term : Nat → α) (n V : Nat) : α :=
   let tl := runTail s.op term s.tailInit (tailPos n V s.us)
   s.op (hfold s.op s.hInit V (combine s.op s.U acc)) tl
 
+/-- depth of the summation tree the machine fixes: no element passes through more than this many applications of `op`
+    (`#vector steps + U + V + #tail steps + 1`); the harness prints the same number (reduce_depth.h) -/
+def depth (n V U : Nat) (us : List Nat) : Nat := (vecSteps n V us).length + U + V + (tailPos n V us).length + 1
+
 /-! ### the instances the code contains (seeds read from the source) -/
 
 section inst
